@@ -579,7 +579,10 @@ def c03_run_parsed(sr, work, drv, inp, text=None, path=None):
 
 
 WRITER_TRIGS = {"undefined_dir", "one_pin_array"}
-READER_TRIGS = {"amp_bus", "glob", "bracket_tail", "design_case", "after_design", "dup_base_bit"}
+# bitlike_scalar: a scalar net named like bit i of a bus of the same cell is, in the written text, a SECOND
+# declaration of that bit; when i is the bus's base index the implementation hits the duplicate-base-bit
+# defect while the model (repaired) merges: excused under the pinned bitlike finding
+READER_TRIGS = {"amp_bus", "glob", "bracket_tail", "design_case", "after_design", "dup_base_bit", "bitlike_scalar"}
 
 
 def corr_sig(res, what=""):
@@ -802,6 +805,12 @@ ASSUMPTIONS = {
             "non-empty ports and cables, scalar bundles at index 0, acyclic library dependencies"],
 }
 PARTIAL = {
-    "C05": ["edif_reader_spec is proved at cell level (_partial); netlist-level assembly is covered by correspondence + P on impl"],
-    "C03": ["edif_roundtrip is proved at net/cell level (_partial); netlist-level assembly is covered by correspondence + P on impl"],
+    "C05": ["edif_reader_spec is proved as edif_reader_spec_partial (the nets of a cell in any order on the reader's own "
+            "multibit_add_cable) plus the reference / token lemmas; the assembly over arbitrary abstract designs (keyword and "
+            "reference spellings, comments, properties everywhere) is covered by correspondence + P on the implementation",
+            "bundled files above 3 MB (thorough) / 400 kB (quick) are checked on the implementation side only (independent "
+            "text denotation); files above 8 MB are not run"],
+    "C03": ["edif_roundtrip and edif_roundtrip_text are proved at full strength on the model (netlist after _edifify_netlist: "
+            "identifiers and order are read back from the implementation); parse_compose_parse is evaluated on the "
+            "implementation, not proved"],
 }
